@@ -26,6 +26,33 @@ type vUnexpOK struct {
 	Y  *vA `optional:"true"`
 }
 
+type vOutUnexp struct {
+	Out
+	x *vA //nolint:unused
+}
+
+type vOutUnexpGrp struct {
+	Out
+	x *vA `group:"g"` //nolint:unused
+	Y *vA `group:"g"`
+}
+
+type vOutUnexpName struct {
+	Out
+	x *vA `name:"a"` //nolint:unused
+}
+
+type vInUnexpFirst struct {
+	x  *vA //nolint:unused
+	In `ignore-unexported:"true"`
+	Y  *vA `optional:"true"`
+}
+
+type vInUnexpGrp struct {
+	In
+	x []*vA `group:"g"` //nolint:unused
+}
+
 type vPtrEmbed struct{ *In }
 type vOutPtrEmbed struct{ *Out }
 type vBoth struct {
@@ -73,7 +100,7 @@ func vMkFn(in, out []reflect.Type, variadic bool) interface{} {
 	}).Interface()
 }
 
-const vNumShapes = 35
+const vNumShapes = 40
 
 // genInput draws one input from the grammar.
 func (h *vHist) genInput(tag string) vBadInput {
@@ -166,6 +193,16 @@ func (h *vHist) genInput(tag string) vBadInput {
 		in.fn = vMkFn(nil, []reflect.Type{reflect.ArrayOf(2, t)}, false)
 	case 32: // slice result; the options decide (flatten)
 		in.fn = vMkFn(nil, []reflect.Type{sliceT}, false)
+	case 34:
+		in.fn = func() vOutUnexp { return vOutUnexp{} }
+	case 35:
+		in.fn = func() vOutUnexpGrp { return vOutUnexpGrp{x: &vA{}, Y: &vA{}} }
+	case 36:
+		in.fn = func() vOutUnexpName { return vOutUnexpName{} }
+	case 37:
+		in.fn = func(vInUnexpFirst) *vT0 { return &vT0{} }
+	case 38:
+		in.fn = func(vInUnexpGrp) *vT0 { return &vT0{} }
 	case 33: // feeds the group it consumes: rejected for a cycle unless verification is deferred
 		st := reflect.StructOf([]reflect.StructField{{Name: "In", Type: vInType, Anonymous: true}, {Name: "X", Type: sliceT, Tag: `group:"g"`}})
 		in.fn = vMkFn([]reflect.Type{st}, []reflect.Type{t}, false)
